@@ -505,10 +505,13 @@ def run(chk):
     from .c01 import check_programs
     chk.rule('C01.P', 'shared with C01: whole programs evaluated (E9r) - locals / globals, parameter binding (missing null, surplus ignored, trailing array), functions as values, a local '
              'hiding a global in call position, script functions replacing library functions - against the structured reading', floor=150)
-    chk.guard('C01.P', check_programs, chk, 'C01.P', False)
+    programs_ok = chk.guard('C01.P', check_programs, chk, 'C01.P', False)
     ee = EvalExpr(chk.repo, 'C04.L')
     chk.guard('C04.W', check_assignment, chk)
-    chk.guard('C04.W', check_global_stores, chk)
+    # who stores into the globals object: a read-back of the whole-program evaluation (final globals of every program compared)
+    chk.readback(programs_ok)('C04.W', check_global_stores, chk)
+    if programs_ok:
+        chk.floors['C04.W'] = 3
     chk.guard('C04.F', check_frames, chk)
     from .. import evalsim
     chk.guard('C04.L', evalsim.report, chk, {'lookup': 'C04.L'}, {'lookup': 'variables: keywords, then locals by membership (a local bound to null shadows the global), then globals; '
